@@ -257,3 +257,22 @@ Theorem C02_number_literal_is_nearest_even :
   else f = B754_infinity 53 1024 neg.
 Proof. exact decimal_literal_is_nearest_even. Qed.
 Print Assumptions C02_number_literal_is_nearest_even.
+
+(* the whole text (not only its strings) is UTF-8 whenever it parses: white space, punctuation, numbers and literals are
+   ASCII, and a string literal is UTF-8 between its quotes exactly when the string it denotes is *)
+Theorem C02_parsed_text_is_utf8 : forall t v, parse_value t = Ok v -> utf8_valid t = true.
+Proof. exact parsed_text_is_utf8. Qed.
+Print Assumptions C02_parsed_text_is_utf8.
+
+(* M6 (second review): the fuel the model passes is never what decides an answer, on ARBITRARY inputs -- also for the loops
+   whose exhaustion is an ordinary value (None, Ok None, Ok buf, PErr, the input itself), about which `<> Err EFuel` says
+   nothing: any fuel above the one the model passes gives the same answer (FuelIndep.v) *)
+From JB Require FuelIndep.
+Theorem C02_fuel_is_never_decisive :
+  (forall k bs, (length bs < k)%nat -> JsonText.skip_unused_fuel k bs = JsonText.skip_unused bs) /\
+  (forall k bs acc esc, (length bs < k)%nat -> JsonText.scan_string k bs acc esc = JsonText.scan_string (S (length bs)) bs acc esc) /\
+  (forall k data, (length data < k)%nat -> JsonText.parse_string_fuel k data [] = JsonText.parse_string data) /\
+  (forall k bs, (length bs < k)%nat -> JsonText.parse_json_value k bs = JsonText.parse_json_value (S (length bs)) bs) /\
+  (forall k m, (Z.log2 m < Z.of_nat k)%Z -> Decimal.ndigits_fuel k m = Decimal.ndigits m).
+Proof. split; [exact FuelIndep.skip_unused_any_fuel|split; [exact FuelIndep.scan_string_any_fuel|split; [exact FuelIndep.parse_string_any_fuel|split; [exact FuelIndep.parse_json_value_any_fuel|exact FuelIndep.ndigits_any_fuel]]]]. Qed.
+Print Assumptions C02_fuel_is_never_decisive.
